@@ -253,7 +253,7 @@ func NewMaterial(r *rand.Rand, cfg Config) *Material {
 		if r.Intn(4) == 0 {
 			opts = map[string]string{"touchless-sudo-hosts": "h1"}
 		}
-		c := gen.MakeCert(gen.CertSpec{Key: mt.Keys[ki], KeyID: kid, ValidAfter: va, ValidBefore: vb, Principals: []string{"u"}, CritOpts: opts, Serial: uint64(r.Int63())})
+		c := gen.MakeCert(gen.CertSpec{Key: mt.Keys[ki], KeyID: kid, ValidAfter: va, ValidBefore: vb, Principals: []string{"u"}, CritOpts: opts, Serial: uint64(r.Int63()), Host: r.Intn(6) == 0})
 		mt.Certs = append(mt.Certs, &CertMat{Cert: c, Blob: string(c.Marshal()), KeyIdx: ki, Window: w, YSSHCA: gen.RefIsYSSHCA(kid), KIDTag: tag})
 	}
 	return mt
